@@ -6,7 +6,6 @@ Local Open Scope N_scope.
 Theorem C04_enter_indirect_keeps_dirty : forall r l r', enter_indirect r l = Ok r' -> r_dirty r = true -> r_dirty r' = true.
 Proof.
   intros r l r' H Hd. unfold enter_indirect in H.
-  destruct (0 <? r_snap (set_cont r StStopped)); [discriminate |].
   destruct (fst l) as [n |]; [| injection H as <-; exact Hd].
   destruct (snd l); injection H as <-; cbn; [rewrite Hd; reflexivity | reflexivity].
 Qed.
